@@ -54,6 +54,8 @@ type lcase struct {
 	LastSleepMs int `json:"last_sleep_ms"`
 	// several steps / runs writing the SAME `stdout:` / `stderr:` file (shared.go)
 	Shared *sharedCase `json:"shared"`
+	// a sequence of runs through the real agent + history store: run, retry, age, run (retention.go)
+	Retention *retentionCase `json:"retention"`
 }
 
 // Pat is the position code: byte at position pos of stream strm in attempt att.
@@ -148,6 +150,9 @@ func killByDir(dir string) {
 func runOne(c lcase) (res map[string]any) {
 	if c.Shared != nil {
 		return runShared(c)
+	}
+	if c.Retention != nil {
+		return runRetention(c)
 	}
 	res = map[string]any{"id": c.ID}
 	defer func() {
